@@ -14,6 +14,7 @@ from checklib import *
 PROPS = {
     'C01': dict(kind='t1', units='C01', corr_quick=100, corr_thorough=5000),
     'C13': dict(kind='t1', units='C13', corr_quick=300, corr_thorough=20000),
+    'C17': dict(kind='t1', units='C17', corr_quick=20, corr_thorough=500),
     'C19': dict(kind='t1', units='C19', corr_quick=300, corr_thorough=20000),
     'C02': dict(kind='t1', units='C02', corr_quick=60, corr_thorough=4000),
     'C04': dict(kind='t1', units='C04', corr_quick=200, corr_thorough=10000),
